@@ -1,5 +1,6 @@
 import DvidModel.Model.Sched
 import DvidModel.Gen.Locks
+import DvidModel.Gen.Fixes
 /-
   C11 — Concurrent acknowledged mutations are never lost or half applied.
 
@@ -243,5 +244,8 @@ theorem covered_blocks_that_schedule :
 theorem all_sites_covered : ∀ site ∈ Gen.Locks.sites, site.2 = true := by decide
 
 example : Gen.Locks.sites.length ≥ 8 := by decide
+
+/-- the repaired shape of saveToStore / GobEncode is present: the repo read lock is not taken twice -/
+theorem repaired_shape_present : Gen.saveDoesNotNestReadLock = true := by decide
 
 end Dvid.Props.C11
